@@ -26,12 +26,23 @@ unsigned int flen;
 unsigned char istop;           /* 0: "RETR 1"   1: "TOP 1 k" */
 unsigned char topk;            /* k, one digit */
 unsigned char openfail;        /* the file vanished: open fails */
+#ifdef TWICE
+/* TWICE: a first retrieval (RETR 1 / TOP 1 k, any file of up to F bytes, possibly cut short by TOP) is followed by RETR 2 of a
+ * second file of F2 bytes: the second reply must be exactly the second file - nothing of the first may be left in the message
+ * stream object (a TOP that stops early leaves unread, already buffered bytes behind; substdio_fdbuf() discards them) */
+#ifndef F2
+#define F2 2
+#endif
+unsigned char file2[F2];
+static int second;
+#endif
 
 static unsigned int fpos;
 static unsigned char outb[OUTMAX]; static unsigned int outlen, flushed;
 static unsigned char expb[OUTMAX]; static unsigned int explen;
 static int nopen, nclose, fd_open;
-static struct message mtab[1];
+static struct message mtab[2];
+static char fn1[] = "new/g";
 static char fn0[] = "new/f";
 static char argbuf[4];
 
@@ -41,12 +52,18 @@ void sym_inputs(void)
 #include "replay_inputs.inc"
 #else
   SYM_ARR(file); SYM(flen); SYM(istop); SYM(topk); SYM(openfail);
+#ifdef TWICE
+  SYM_ARR(file2);
+#endif
 #endif
 }
 
 /* ---- environment */
 int open_read(char *fn)
 {
+#ifdef TWICE
+  if (second) { CHECK(fn == fn1, "C19: RETR 2 opens the file that is message 2"); ++nopen; fd_open = 1; fpos = 0; return 5; }
+#endif
   CHECK(fn == fn0, "C19: RETR/TOP 1 opens the file that is message 1");
   ++nopen;
   if (openfail) return -1;
@@ -58,6 +75,13 @@ int vf_close(int fd) { CHECK(fd == 5 && fd_open, "closes the message descriptor"
 int ideal_getc(substdio *s)
 {
   CHECK(s == &ssmsg && fd_open && s->fd == 5, "the message is read from the opened file only");
+#ifdef TWICE
+  if (second) {
+    if (fpos == 0) CHECK(s->p == 0, "C19: a retrieval starts with an empty message stream - no unread bytes of the previously retrieved message are sent");
+    if (fpos >= F2) return -1;
+    return file2[fpos++];
+  }
+#endif
   if (fpos >= flen) return -1;
   return file[fpos++];
 }
@@ -116,6 +140,10 @@ void vmain(void)
   ASSUME(istop <= 1 && topk <= 9 && openfail <= 1);
   mtab[0].fn = fn0; mtab[0].flagdeleted = 0; mtab[0].size = flen;
   m = mtab; numm = 1;
+#ifdef TWICE
+  mtab[1].fn = fn1; mtab[1].flagdeleted = 0; mtab[1].size = F2; numm = 2;
+  ASSUME(!openfail);
+#endif
   argbuf[0] = '1';
   if (istop) { argbuf[1] = ' '; argbuf[2] = (char) ('0' + topk); argbuf[3] = 0; }
   else argbuf[1] = 0;
@@ -124,7 +152,7 @@ void vmain(void)
 
   CHECK(nopen == 1, "exactly one open per RETR/TOP");
   CHECK(flushed == outlen, "reply flushed");
-  CHECK(m[0].flagdeleted == 0 && numm == 1, "RETR/TOP does not change the message table");
+  CHECK(m[0].flagdeleted == 0 && numm >= 1 && numm <= 2, "RETR/TOP does not change the message table");
   if (openfail) {
     CHECK(outlen >= 6 && outb[0] == '-' && outb[1] == 'E' && outb[2] == 'R' && outb[3] == 'R' && outb[4] == ' '
           && outb[outlen - 2] == '\r' && outb[outlen - 1] == '\n', "C19: a message that cannot be opened is answered -ERR");
@@ -148,4 +176,27 @@ void vmain(void)
   if (istop && topk == 1 && fpos < flen) WITNESS("top_cut_short");
   if (istop && topk == 0 && flen == F && file[1] == '\n' && file[2] == '\n') WITNESS("top_0_header_only");
   if (istop) WITNESS("top"); else WITNESS("retr");
+#ifdef TWICE
+  {
+    unsigned int cut = (fpos < flen), j;
+    second = 1; outlen = 0; flushed = 0; explen = 0; nopen = 0; nclose = 0;
+    argbuf[0] = '2'; argbuf[1] = 0;
+    pop3_top(argbuf);
+    CHECK(nopen == 1 && nclose == 1 && !fd_open && flushed == outlen, "second retrieval: one open, closed, flushed");
+    /* reference for the second file: reuse the encoder on file2 */
+    for (j = 0; j < F2; ++j) file[j] = file2[j];
+    flen = F2; istop = 0;
+    ref_retr();
+    start = 0;
+    for (i = 0; i + 1 < 12; ++i) { if (!start && i + 1 < outlen && outb[i] == '\r' && outb[i + 1] == '\n') start = i + 2; }
+    CHECK(start != 0 && outb[0] == '+', "second retrieval answered +OK");
+    CHECK(outlen - start == explen, "C19: the second retrieval sends exactly the second message (length)");
+    for (i = 0; i < OUTMAX; ++i) {
+      if (i >= explen || start + i >= outlen) break;
+      CHECK(outb[start + i] == expb[i], "C19: the second retrieval sends exactly the second message (bytes)");
+    }
+    if (cut) WITNESS("second_retrieval_after_a_top_cut_short");
+    WITNESS("second_retrieval");
+  }
+#endif
 }
